@@ -32,6 +32,7 @@ type Scenario struct {
 	Plugins      []*Script
 	PluginAPI    bool // --generate-plugin-api
 	SymlinkRoot  bool // the directory holding the Thrift files is reached through a symbolic link
+	RelPaths     int  // 0: absolute paths on the command line; 1: relative to the sandbox; 2: relative to the directory of the Thrift file
 	// C17
 	FailModule int    // index of the file that fails (-1: none)
 	FailKind   string // "gen-reserved", "gen-goname" or "compile"
@@ -192,6 +193,14 @@ func genScenario(o world.Opts) *Scenario {
 	}
 	sc.NoRecurse = simrt.Flip("opt.no-recurse", 0.15)
 	sc.SymlinkRoot = simrt.Flip("layout.symlinked-thrift-dir", 0.1)
+	if simrt.Flip("layout.relative-paths", 0.2) {
+		sc.RelPaths = 1 + simrt.Choice("layout.relative-to", 2)
+		if sc.SymlinkRoot {
+			// a working directory below the link would be the physical one (os.Getwd): relative
+			// paths would then name the files by another spelling than the expectation assumes
+			sc.RelPaths = 1
+		}
+	}
 	if simrt.Flip("opt.generate-plugin-api", 0.08) {
 		// the built-in generator behind --generate-plugin-api is written for plugin/api.thrift;
 		// its client template cannot render a service whose parent lives in another module
@@ -400,9 +409,35 @@ func RunOne(cfg simrt.Config, o world.Opts) *world.Result {
 			}
 			s.RegisterExec(entry)
 		}
-		args := []string{"thriftrw", "--out", env.Out, "--pkg-prefix", "example.com/gen"}
+		// paths on the command line: absolute, or relative to the directory the host is started in
+		inFile := filepath.Join(env.Thrift, filepath.FromSlash(sc.Prog.Files[0].RelPath()))
+		cwd := ""
+		switch sc.RelPaths {
+		case 1:
+			cwd = env.Root
+		case 2:
+			cwd = filepath.Dir(inFile)
+		}
+		arg := func(p string) string {
+			if cwd == "" {
+				return p
+			}
+			r, err := filepath.Rel(cwd, p)
+			if err != nil {
+				return p
+			}
+			return r
+		}
+		if cwd != "" {
+			saved, _ := os.Getwd()
+			if err := os.Chdir(cwd); err != nil {
+				panic(err)
+			}
+			defer os.Chdir(saved)
+		}
+		args := []string{"thriftrw", "--out", arg(env.Out), "--pkg-prefix", "example.com/gen"}
 		if sc.ExplicitRoot {
-			args = append(args, "--thrift-root", filepath.Join(env.Root, filepath.FromSlash(sc.RootRel)))
+			args = append(args, "--thrift-root", arg(filepath.Join(env.Root, filepath.FromSlash(sc.RootRel))))
 		}
 		if sc.NoRecurse {
 			args = append(args, "--no-recurse")
@@ -420,7 +455,7 @@ func RunOne(cfg simrt.Config, o world.Opts) *world.Result {
 		if sc.PluginAPI {
 			args = append(args, "--generate-plugin-api")
 		}
-		args = append(args, filepath.Join(env.Thrift, filepath.FromSlash(sc.Prog.Files[0].RelPath())))
+		args = append(args, arg(inFile))
 		os.Args = args
 		simrt.Emit("host-start", strings.Join(args[1:], " "), 0, "")
 		func() {
